@@ -469,7 +469,7 @@ fn gen_template(rng: &mut Rng, density: f64) -> JobSpec {
     let k = rng.range(2, 5) as usize;
     let names = pick_names(rng, k);
     let y = |rng: &mut Rng| yields(rng, density);
-    let which = rng.below(13);
+    let which = rng.below(14);
     let text: String = match which {
         0 => {
             // keywords() of an argument list
@@ -569,6 +569,20 @@ fn gen_template(rng: &mut Rng, density: f64) -> JobSpec {
             rev.reverse();
             let b: Vec<String> = rev.iter().enumerate().map(|(i, n)| format!("{}: (y: {}, z: {})", n, 10 + i, 20 + i)).collect();
             format!("@use \"sass:map\";\n{}a {{ m: inspect(map.deep-merge(({}), ({}))); k: map.keys(map.merge(({}), ({}))); }}\n", y(rng), a.join(", "), b.join(", "), a.join(", "), b.join(", "))
+        }
+        12 => {
+            // an @import-ed file that forwards several modules, two of which define the same
+            // variable: which one the importer sees, and in which order members are listed,
+            // is decided by the order of the @forward rules
+            for (i, f) in ["fa", "fb", "fc"].iter().enumerate() {
+                spec.files.push((format!("/t/_{}.scss", f), format!("${}: from-{};\n${}-{}: {};\n", names[0], f, names[1], f, i).into_bytes()));
+            }
+            spec.files.push(("/t/_fwd.scss".into(), b"@forward \"fa\";\n@forward \"fb\";\n@forward \"fc\";\n".to_vec()));
+            spec.files.push(("/t/_user.scss".into(), b"@import \"fwd\";\n".to_vec()));
+            let main = format!("@use \"sass:meta\";\n@use \"sass:map\";\n@use \"user\";\n@import \"fwd\";\n{}x {{ y: ${}; z: ${}-fa ${}-fb ${}-fc; m: inspect(map.keys(meta.module-variables(\"user\"))); }}\n", y(rng), names[0], names[1], names[1], names[1]);
+            spec.files.push(("/t/main.scss".into(), main.into_bytes()));
+            spec.entry = Entry::Path("/t/main.scss".into());
+            String::new()
         }
         _ => {
             // global variables and functions listed by meta
@@ -981,7 +995,7 @@ impl Engine for SchedEngine {
         out.into_iter().map(|d| d.to_json()).collect()
     }
     fn rule(&self) -> String {
-        "seeded runs of 1-4 simulated threads x 1-6 jobs each (jobs: suite inputs, order-sensitive templates over a shared identifier pool [keywords(), unknown named arguments, named-argument evaluation order, maps, module members through @forward show/hide, @extend, @use-with, selector functions, mixin defaults, compound units with user-named units, nested @media merging, map.deep-merge], multi-file projects on SimFs, logger scripts; 40% of runs let threads draw from a shared job pool); per run a scheduling policy (serial, random(0.02/0.2/0.5), pct(1/3), latency), per-thread hash key (15% equal to the reference key), heap shift, sim-yield density, H1 on/off; some history jobs fail, are Fs-faulted, or run out of evaluation fuel mid-evaluation (caught panic). 6% of runs are unique-id() runs under adversarial entropy. Every run executes in a process forked for it alone on a deterministic heap. Non-trivial = runs with a context switch inside a compilation or a thread with more than one job; distinct by (case, switch list).".into()
+        "seeded runs of 1-4 simulated threads x 1-6 jobs each (jobs: suite inputs, order-sensitive templates over a shared identifier pool [keywords(), unknown named arguments, named-argument evaluation order, maps, module members through @forward show/hide, @extend, @use-with, selector functions, mixin defaults, compound units with user-named units, nested @media merging, map.deep-merge, conflicting @forwards reached through @import], multi-file projects on SimFs, logger scripts; 40% of runs let threads draw from a shared job pool); per run a scheduling policy (serial, random(0.02/0.2/0.5), pct(1/3), latency), per-thread hash key (15% equal to the reference key), heap shift, sim-yield density, H1 on/off; some history jobs fail, are Fs-faulted, or run out of evaluation fuel mid-evaluation (caught panic). 6% of runs are unique-id() runs under adversarial entropy. Every run executes in a process forked for it alone on a deterministic heap. Non-trivial = runs with a context switch inside a compilation or a thread with more than one job; distinct by (case, switch list).".into()
     }
     fn assumptions(&self) -> Vec<String> {
         vec![
